@@ -169,9 +169,13 @@ func (r *Report) WantSample() bool {
 func (r *Report) Violate(key, what string, witness interface{}) {
 	r.mu.Lock()
 	defer r.mu.Unlock()
-	r.vcount[key]++
+	kind := what
+	if len(kind) > 48 {
+		kind = kind[:48]
+	}
+	r.vcount[key+"|"+kind]++
 	r.Counters["violations:"+key]++
-	if r.vcount[key] <= 5 {
+	if r.vcount[key+"|"+kind] <= 4 {
 		r.Violations = append(r.Violations, Violation{key, what, witness})
 	}
 }
